@@ -36,9 +36,20 @@ def mul(*xs):
             out += list(x[1])
         else:
             out.append(x)
-    if len(out) == 1:
-        return out[0]
-    return ("mul", tuple(sorted(out, key=repr)))
+    prod = 1
+    for x in out:
+        if x[0] == "int":
+            prod *= x[1]
+    rest = [x for x in out if x[0] != "int"]
+    if prod == 0:
+        return ("int", 0)
+    if not rest:
+        return ("int", prod)
+    if prod != 1:
+        rest.append(("int", prod))
+    if len(rest) == 1:
+        return rest[0]
+    return ("mul", tuple(sorted(rest, key=repr)))
 
 
 def I(n):
